@@ -5,7 +5,8 @@
 set -u
 ID=$1; n=$2; tier=${3:-quick}
 VERIF=$(cd "$(dirname "$(readlink -f "$0")")/.." && pwd)
-wt=/tmp/seed/$ID; src=$wt/out/$n
+SEEDROOT=${SEEDROOT:-/tmp/seed}; SEEDTAG=${SEEDTAG:-}
+wt=$SEEDROOT/$ID; src=$wt/out/$n
 export GOFLAGS=-mod=mod GOPROXY=off GOSUMDB=off GOTOOLCHAIN=local
 [ -f "$src/patch.diff" ] || { echo "no $src/patch.diff"; exit 2; }
 demo_dir=$(python3 -c "import json;print(json.load(open('$src/meta.json'))['demo']['dir'])")
@@ -13,20 +14,20 @@ demo_run=$(python3 -c "import json;print(json.load(open('$src/meta.json'))['demo
 demo_files=$(ls "$src" | grep -v -E '^(patch.diff|meta.json)$')
 cd "$wt" && git checkout -q -- . 
 cleanup_demo(){ for f in $demo_files; do rm -f "$wt/$demo_dir/$f"; done; }
-git apply "$src/patch.diff" || { echo "SEED $ID-$n: patch does not apply"; exit 2; }
-go build ./... || { echo "SEED $ID-$n: does not build"; git checkout -q -- .; exit 2; }
+git apply "$src/patch.diff" || { echo "SEED $ID-$SEEDTAG$n: patch does not apply"; exit 2; }
+go build ./... || { echo "SEED $ID-$SEEDTAG$n: does not build"; git checkout -q -- .; exit 2; }
 for f in $demo_files; do cp "$src/$f" "$wt/$demo_dir/"; done
-( eval "$demo_run" ) > /tmp/seed/demo-$ID-$n-with.log 2>&1; with=$?
+( eval "$demo_run" ) > $SEEDROOT/demo-$ID-$n-with.log 2>&1; with=$?
 git checkout -q -- .
-( eval "$demo_run" ) > /tmp/seed/demo-$ID-$n-without.log 2>&1; without=$?
+( eval "$demo_run" ) > $SEEDROOT/demo-$ID-$n-without.log 2>&1; without=$?
 cleanup_demo
 git checkout -q -- . ; git checkout -q -- plugin/testdata 2>/dev/null
 cd "$VERIF"
-out=$(VERIF_VIOLATIONS_DIR=/tmp/seed/viol-$ID-$n tools/mutant.sh "$src/patch.diff" "$ID" "$tier" 2>&1); rc=$?
+out=$(VERIF_VIOLATIONS_DIR=$SEEDROOT/viol-$ID-$n tools/mutant.sh "$src/patch.diff" "$ID" "$tier" 2>&1); rc=$?
 keys=$(echo "$out" | grep '^VIOLATION' | sed -E 's/.* key=([^ ]+) .*/\1/' | head -8 | tr '\n' ' ')
 verdict=MISSED; [ $rc -eq 1 ] && verdict=CAUGHT; [ $rc -eq 2 ] && verdict="INFRA(rc=2)"
-echo "SEED $ID-$n: demo with patch rc=$with (want !=0), without rc=$without (want 0); check $ID $tier -> rc=$rc $verdict :: $keys"
-dst=$VERIF/seeded/$ID-$n; mkdir -p "$dst"
+echo "SEED $ID-$SEEDTAG$n: demo with patch rc=$with (want !=0), without rc=$without (want 0); check $ID $tier -> rc=$rc $verdict :: $keys"
+dst=$VERIF/seeded/$ID-$SEEDTAG$n; mkdir -p "$dst"
 cp "$src/patch.diff" "$dst/"; for f in $demo_files; do cp "$src/$f" "$dst/"; done
 python3 - "$src/meta.json" "$dst/meta.json" "$with" "$without" "$rc" "$verdict" "$keys" "$tier" <<'PY'
 import json,sys
